@@ -597,9 +597,22 @@ func runC09(tier string, _ []string) int {
 		d.Finite = true // a listing holding +-Inf fails JSON encoding (405), which is not an auth matter
 		type userRec struct{ id, email, pass string }
 		var users []userRec
+		decoys := map[string]bool{}
 		mkUser := func(parent, email, pass string) (string, error) {
 			id := d.newID()
-			if e, err := d.sendNode(id, data.Points{{Type: data.PointTypeEmail, Time: d.now(), Text: email}, {Type: data.PointTypePass, Time: d.now(), Text: pass}, {Type: data.PointTypeFirstName, Time: d.now(), Text: "u"}}); err != nil || e != "" {
+			upts := data.Points{{Type: data.PointTypeEmail, Time: d.now(), Text: email}, {Type: data.PointTypePass, Time: d.now(), Text: pass}, {Type: data.PointTypeFirstName, Time: d.now(), Text: "u"}}
+			if r.Chance(0.5) {
+				// points of the credential types under other keys (not the credentials: those live under key 0),
+				// written before or after the real ones
+				decoy := data.Points{{Type: data.PointTypePass, Key: "1", Time: d.now(), Text: "decoy-" + pass}, {Type: data.PointTypeEmail, Key: "old", Time: d.now(), Text: "decoy-" + email}}
+				if r.Chance(0.5) {
+					upts = append(upts, decoy...)
+				} else {
+					upts = append(decoy, upts...)
+				}
+				decoys[email] = true
+			}
+			if e, err := d.sendNode(id, upts); err != nil || e != "" {
 				return id, fmt.Errorf("user points: %v %s", err, e)
 			}
 			if e, err := d.sendEdge(id, parent, data.Points{{Type: data.PointTypeTombstone, Time: d.now(), Value: 0}, {Type: data.PointTypeNodeType, Text: data.NodeTypeUser}}); err != nil || e != "" {
@@ -765,6 +778,18 @@ func runC09(tier string, _ []string) int {
 			}
 			c.Distinct(fmt.Sprintf("login %s allowed=%v", sc, want))
 			c.Count("login_verdicts", 1)
+			if decoys[email] {
+				for _, probe := range [][2]string{{email, "decoy-" + pass}, {"decoy-" + email, pass}, {"decoy-" + email, "decoy-" + pass}} {
+					st2, tok2, err := login(cl, base, probe[0], probe[1])
+					c.Eval(1)
+					if err == nil && st2 == 200 && tok2 != "" {
+						wit["probe_email"], wit["probe_password"] = probe[0], probe[1]
+						c.Violate("auth:token-issued-for-text-that-is-not-the-credential", "a token was issued for an e-mail / password that only appears in points under other keys of the user node", wit)
+						return
+					}
+				}
+				c.Count("decoy_credential_probes", 1)
+			}
 			if want {
 				// listing: only subtrees of the user's live placements
 				res, err := doHTTP(cl, "GET", base+"/v1/nodes", "Bearer "+tok, true, nil, "")
